@@ -158,7 +158,7 @@ func validateWith(c *core.Ctx, res *core.Result, module string, traces []traceOu
 		tf := filepath.Join(c.Scratch, fmt.Sprintf("%s-trace%d.ndjson", module, round))
 		os.WriteFile(tf, []byte(strings.Join(all, "\n")+"\n"), 0o644)
 		vf := filepath.Join(c.Scratch, fmt.Sprintf("%s-verdict%d.ndjson", module, round))
-		t, err := c.RunTLC(core.TLCOpts{Module: module, Config: module + ".cfg", Workers: 1,
+		t, err := c.RunTLC(core.TLCOpts{Module: module, Config: module + ".cfg", Workers: 1, DFS: module == "TracePipeline",
 			Env: map[string]string{"VERIF_TRACE": tf, "VERIF_OUT": vf}})
 		if err != nil {
 			return nil, err
